@@ -653,10 +653,14 @@ class WorkTree:
             # Create a dangling commit
             c.parents = list(merge_heads)
         else:
+            # The branch is read once: the value the parents are taken from
+            # is also the value the ref update below is conditioned on.
+            old_head: ObjectID | None
             try:
                 old_head = self._repo.refs[ref]
                 c.parents = [old_head, *merge_heads]
             except KeyError:
+                old_head = None
                 c.parents = list(merge_heads)
 
         # Handle message after parents are set
@@ -725,8 +729,7 @@ class WorkTree:
                 c.gpgsig = vendor.sign(c.as_raw_string(), keyid=keyid)
             self._repo.object_store.add_object(c)
         else:
-            try:
-                old_head = self._repo.refs[ref]
+            if old_head is not None:
                 if should_sign:
                     from dulwich.signature import get_signature_vendor
 
@@ -747,7 +750,7 @@ class WorkTree:
                     else None,
                     timezone=commit_timezone,
                 )
-            except KeyError:
+            else:
                 c.parents = list(merge_heads)
                 if should_sign:
                     from dulwich.signature import get_signature_vendor
